@@ -236,9 +236,33 @@ pub fn conv(m: &mut M, r: &mut Rng, n: u64) {
         }
         // --- float conversions
         if i % 3 == 1 {
-            load_valid(m, r, 5, -160, 140);
+            if i % 2 == 0 {
+                load_valid(m, r, 5, -160, 140);
+            } else {
+                // the thresholds of the TARGET format: largest finite f32 and the overflow tie above it, the
+                // smallest normal and the subnormal range of f32 (rounding ties of a narrower significand), a
+                // few f64 ulps either side, through every spelling
+                let t = match r.below(7) {
+                    0 => f32::MAX as f64,
+                    1 => f32::MAX as f64 + pow2(103),            // tie between f32::MAX and 2^128
+                    2 => f32::MAX as f64 + pow2(r.range(75, 103) as i32),
+                    3 => f32::MIN_POSITIVE as f64,
+                    4 => pow2(-149) * (r.range(1, 64) as f64 + 0.5), // ties between f32 subnormals
+                    5 => pow2(-150),
+                    _ => pow2(r.range(-126, 127) as i32) * (1.0 + pow2(-24) * (2.0 * r.range(0, 100) as f64 + 1.0)), // f32 half-ulp ties
+                };
+                let k = r.range(-3, 3);
+                let h = f64::from_bits((t.to_bits() as i64 + k) as u64) * if r.coin() { 1.0 } else { -1.0 };
+                loop {
+                    if m.load(5, h, lo_candidate(r, h)) {
+                        break;
+                    }
+                }
+            }
             m.call("conv", "to_f64", *r.pick(&["From_v", "From_r", "ToPrimitive", "hi"]), None, &[A::R(5)]);
-            m.call("conv", "to_f32", *r.pick(&["From_v", "From_r", "ToPrimitive"]), None, &[A::R(5)]);
+            for spf in ["From_v", "From_r", "ToPrimitive"] {
+                m.call("conv", "to_f32", spf, None, &[A::R(5)]);
+            }
             let f = f32::from_bits(r.next() as u32);
             m.call("conv", "from_f32", "From", Some(6), &[A::F32(f)]);
         }
@@ -572,6 +596,41 @@ pub fn spell(m: &mut M, r: &mut Rng, n: u64) {
         let ku = r.range(0, 30);
         for sp in ["inh", "Pow_u8", "Pow_u16"] {
             m.call("pow", "powi", sp, Some(5), &[A::R(0), A::I(false, ku as u128, "i32")]);
+        }
+        // the shortcut exponents 0, 1, -1, 2 on operands whose words a generic multiplication does not reproduce
+        // (infinities, negative zeros in either word), through every spelling: `x.pow(1)` must hand x back untouched
+        if i % 3 == 0 {
+            match r.below(5) {
+                0 => {
+                    m.call("const", "const", "assoc", Some(6), &[A::S((*r.pick(&["INFINITY", "NEG_INFINITY"])).to_string())]);
+                }
+                1 => {
+                    m.load(6, -0.0, if r.coin() { 0.0 } else { -0.0 });
+                }
+                2 => {
+                    // a negative-zero low word: the negation of a one-word value
+                    let h = r.f64_in(-20, 20);
+                    m.load(6, h, 0.0);
+                    m.call("arith", "neg", "v", Some(6), &[A::R(6)]);
+                }
+                3 => {
+                    m.load(6, 0.0, -0.0);
+                }
+                _ => {
+                    let h = r.f64_in(-20, 20);
+                    m.load(6, h, if r.coin() { 0.0 } else { -0.0 });
+                }
+            }
+            for kk in [0i64, 1, 2, -1] {
+                for sp in ["inh", "Float", "FloatCore", "Pow_i32_vv", "Pow_i32_rv", "Pow_i32_vr", "Pow_i32_rr", "Pow_i8", "Pow_i16"] {
+                    m.call("pow", "powi", sp, Some(5), &[A::R(6), A::I(kk < 0, kk.unsigned_abs() as u128, "i32")]);
+                }
+                if kk >= 0 {
+                    for sp in ["Pow_u8", "Pow_u16"] {
+                        m.call("pow", "powi", sp, Some(5), &[A::R(6), A::I(false, kk as u128, "i32")]);
+                    }
+                }
+            }
         }
         // sums
         if i % 4 == 0 {
